@@ -20,7 +20,7 @@ import vlib
 
 FINITE = ["", "a := 1", "a := [1, 2]", "a := 1; b := a + 2", "a := {x: 1}; b := a.x"]
 ERROR = ['a := 1 + "x"', "a := 1 / 0", "a := 1; a()", "a := 5; b := [a][0].z.y", 'f := func(x) { return x.y.z }; f(1)']
-PANIC = ["boom()", "a := 5; b := boom(a)", "f := func(x) { return boom(x) }; f(0)", "a := bytes(-1)"]
+PANIC = ["boom()", "a := 5; b := boom(a)", "f := func(x) { return boom(x) }; f(0)", "a := bytes(-1)", "boom2()", "a := 1; b := boom3(a)", "boom4()"]
 LOOP = ["for {}", "f := func(x) { return f(x + 1) }; f(0)", "i := 0; for { i++ }",
         "a := [1, 2, 3]; for { for x in a { } }", "f := func(x) { return x > 0 && f(x + 1) }; f(1)"]
 
